@@ -11,7 +11,7 @@ META = {
         "returns without appending; (3) there is exactly one monotone flag: PoisonSignal is created only in the two open "
         "paths, every other holder is a clone of the database's flag, and the only store writes `true`; (4) a failing "
         "worker poisons (error arm and panic drop-guard), and workers get a dart cloned from the database's flag; "
-        "(5) no append/persist result is discarded. Error edges are found on the type-checked MIR (Try::branch Break arm, "
+        "(5) no append/persist result is discarded. (8) every journal I/O call made under the journal lock outside journal:: (write entries, Database::persist, the worker's journal rotation, the seal-time write-out) raises the poison flag WHILE the guard is alive — writers look at the flag only right after taking that lock — and Database::persist checks the flag under the lock. Error edges are found on the type-checked MIR (Try::branch Break arm, "
         "`if let Err`, inspect_err/map_err closures), so all call sites and all paths are covered, not sampled runs."),
     "not_decided": [
         "short-write behaviour of BufWriter and what recovery yields after a failure at the n-th write",
